@@ -105,4 +105,10 @@ CHECKS = {
         design_ref="DESIGN.md §4 C12",
         note=".xls files come from our own BIFF8/OLE2 writer (LABEL, LABELSST, NUMBER, RK, MULRK, BOOLERR, BLANK records). Markdown/CSV are compared on the noise-free workbook. Two genuine defects found here were fixed in /repo.",
     ),
+    "C17": dict(
+        technique="property-based mutation testing (valid generated form x catalogued breaking operator x generated site; oracle = PyXFormError + planted-token substring + [row : n] when pyxform's own parse stage raises + message-shape agreement with the same operator on a 3-row form) plus grammar-based fuzzing with XLSForm vocabulary soup (oracle = result passing C01's predicate, or PyXFormError)",
+        text="38 breaking operators (unbalanced/mismatched begin-end, duplicate/invalid/missing names, missing/unknown types, unknown/ambiguous/malformed references in every cell kind, missing sheets/lists/choices, duplicate choices, calculate without calculation, ~30 bad-parameter variants, duplicate headers via xlsx, alias clashes in both orders, missing required headers, instance-id clashes, section name clashes, or_other+filter, spaces in select_multiple choices, wrong file extension, audit name, big-image without image, no label, external choices problems, bad triggers, search() misuse, omit_instanceID with key, save_to problems, table-list mismatch, loops) applied at generated sites of generated forms, and vocabulary soup workbooks over all sheets. The run is inconclusive if any operator was never applied.",
+        design_ref="DESIGN.md §4 C17",
+        note="Internal slot names (children, choices, itemset) are not generated as headers. 13 genuine defects found here were fixed in /repo; 3 remain open in known_findings.json (one is pinned by a test of the suite).",
+    ),
 }
